@@ -2,7 +2,11 @@
    Property theorems only. The transition system (Model/C16.v) has any number
    of threads, each running any sequence of Reader-method calls, Close /
    unloadIfIdleSince(ts), isIdleSince(ts) and pool sweeps, under every
-   interleaving of their atomic steps ([reachable]). *)
+   interleaving of their atomic steps ([reachable]). [bp_src] (computed from the
+   regenerated source facts) says whether some delegating method returns the
+   BinaryReader's zero-copy strings to its caller without copying them; with the
+   fix of LabelValues it is false, and every theorem is stated for
+   [reachable bp_src], i.e. for the program the source describes now. *)
 From Coq Require Import ZArith List Bool String Arith.
 Import ListNotations.
 From Verif Require Import Lib.Corr Gen.C16 Model.C16 Proofs.C16.
@@ -12,17 +16,17 @@ Close Scope Z_scope.
    point (the delegated BinaryReader call on handle h) holds a read lock, no
    writer is active, r.reader is exactly h and h has not been closed. *)
 Theorem C16_no_use_after_close : forall s ts h,
-  reachable s ts -> In (L_UseCall h) ts ->
+  reachable bp_src s ts -> In (L_UseCall h) ts ->
   1 <= readers s /\ writer s = false /\ rd s = Some h /\ is_closed h (closed s) = false.
-Proof. exact no_use_after_close. Qed.
+Proof. rewrite bp_src_false. exact no_use_after_close. Qed.
 Print Assumptions C16_no_use_after_close.
 
 (* r.reader is never nil where it is dereferenced (after load() returned nil). *)
 Theorem C16_reader_field_not_nil : forall s ts p,
-  reachable s ts -> In p ts -> p = L_Touch \/ p = L_UseRead ->
+  reachable bp_src s ts -> In p ts -> p = L_Touch \/ p = L_UseRead ->
   1 <= readers s /\ writer s = false /\
   exists h, rd s = Some h /\ is_closed h (closed s) = false.
-Proof. exact reader_field_not_nil. Qed.
+Proof. rewrite bp_src_false. exact reader_field_not_nil. Qed.
 Print Assumptions C16_reader_field_not_nil.
 
 (* Every call returns a declared result: a Reader method returns the answer of
@@ -32,53 +36,76 @@ Print Assumptions C16_reader_field_not_nil.
    never answers from a closed one (RPanic / RUAC are excluded by lookup_res /
    good_res). *)
 Theorem C16_answers_equal_or_error : forall s ts x,
-  reachable s ts ->
+  reachable bp_src s ts ->
   (In (L_RUnlockEnd x) ts -> lookup_res x) /\
   (In (U_Unlock x) ts -> unload_res x) /\
   (In (Done x) ts -> good_res x).
-Proof. exact results_ok. Qed.
+Proof. rewrite bp_src_false. exact results_ok. Qed.
 Print Assumptions C16_answers_equal_or_error.
+
+(* Answers outlive unloading: no caller ever reads an answer that is backed by the
+   memory of a closed (unmapped) index-header. Holds because no delegating
+   method hands out memory-backed answers ([bp_src] = false, from the source). *)
+Theorem C16_answers_outlive_unload : forall s ts h,
+  reachable bp_src s ts -> ~ In (Dangling h) ts.
+Proof. rewrite bp_src_false. exact no_dangling. Qed.
+Print Assumptions C16_answers_outlive_unload.
+
+(* ... and it is exactly what fails when a method returns the zero-copy strings
+   of BinaryReader.LabelValues as they are (the code before the fix): a lookup
+   returns, Close() unmaps the header, the caller reads the answer. *)
+Theorem C16_uncopied_answer_refuted :
+  exists s ts h, reachable true s ts /\ In (Dangling h) ts.
+Proof.
+  exists (mkS 0 false None false 7%Z 1 [0] 1 0 1 0), [Dangling 0; Done RNil], 0.
+  split; [|left; reflexivity].
+  exists 2, 1%Z.
+  apply (exec_steps true (repeat (0, mkC OLookup true 7%Z true) 14 ++ repeat (1, mkC (OUnload 0%Z) true 0%Z true) 7
+                          ++ [(0, mkC OLookup true 7%Z true)])).
+  vm_compute. reflexivity.
+Qed.
+Print Assumptions C16_uncopied_answer_refuted.
 
 (* The lock discipline: the reader count is the number of threads inside read
    sections, at most one thread is inside a write section and then nobody is
    inside a read section. *)
 Theorem C16_rw_excl : forall s ts,
-  reachable s ts ->
+  reachable bp_src s ts ->
   readers s = cnt holdsR ts /\ cnt holdsW ts = (if writer s then 1 else 0) /\
   (writer s = true -> cnt holdsR ts = 0).
-Proof. exact rw_excl. Qed.
+Proof. rewrite bp_src_false. exact rw_excl. Qed.
 Print Assumptions C16_rw_excl.
 
 (* The metric counters: whenever the write lock is free,
    loadCount - loadFailedCount = unloadCount - unloadFailedCount + [reader loaded]. *)
 Theorem C16_counters : forall s ts,
-  reachable s ts -> writer s = false ->
+  reachable bp_src s ts -> writer s = false ->
   loads s - loadfails s = (unloads s - unloadfails s) + (if is_some (rd s) then 1 else 0)
   /\ loadfails s <= loads s /\ unloadfails s <= unloads s.
-Proof. exact counts_quiescent. Qed.
+Proof. rewrite bp_src_false. exact counts_quiescent. Qed.
 Print Assumptions C16_counters.
 
 (* One thread: for every sequence of operations (and clock values) the model
    produces observations, the correspondence check accepts exactly them, and
    they satisfy the predicate evaluated on the implementation's observables. *)
 Theorem C16_sequential_pred : forall u0 load_ok ops,
-  exists obs, seq_model load_ok (init_shared u0) ops = Some obs
+  exists obs, seq_model bp_src load_ok (init_shared u0) ops = Some obs
     /\ corr_ok (CSeq u0 load_ok obs) = true
     /\ pred_ok (CSeq u0 load_ok obs) = true
     /\ map (fun x => (fst (fst x), snd (fst x))) obs = ops.
-Proof. intros. apply seq_model_ok. apply quiet_init. Qed.
+Proof. intros. unfold corr_ok. rewrite bp_src_false. apply seq_model_ok. apply quiet_init. Qed.
 Print Assumptions C16_sequential_pred.
 
 (* ... and any observations the correspondence check accepts satisfy it. *)
 Theorem C16_sequential_corr_implies_pred : forall u0 load_ok obs,
   corr_ok (CSeq u0 load_ok obs) = true -> pred_ok (CSeq u0 load_ok obs) = true.
-Proof. intros u0 ok obs. apply seq_ok_pred. apply quiet_init. Qed.
+Proof. intros u0 ok obs. unfold corr_ok. rewrite bp_src_false. apply seq_ok_pred. apply quiet_init. Qed.
 Print Assumptions C16_sequential_corr_implies_pred.
 
 (* A sequential execution of an operation (what the correspondence check
    evaluates) is a run of the transition system. *)
-Theorem C16_sequential_run_is_lts_run : forall fuel c s p s' x,
-  run fuel c s p = Some (s', x) -> steps (s, [p]) (s', [Done x]).
+Theorem C16_sequential_run_is_lts_run : forall bp fuel c s p s' x,
+  run bp fuel c s p = Some (s', x) -> steps bp (s, [p]) (s', [Done x]).
 Proof. exact run_steps. Qed.
 Print Assumptions C16_sequential_run_is_lts_run.
 
@@ -92,37 +119,37 @@ Print Assumptions C16_source_skeleton.
    header; between its deferred Unlock and RLock thread 1 runs Close(); thread
    0's re-check then reports errUnloadedWhileLoading. The configuration is
    reachable, so the theorems above speak about it. *)
-Definition lk := mkC OLookup true 7%Z.
-Definition cl0 := mkC (OUnload 0%Z) true 0%Z.
+Definition lk := mkC OLookup true 7%Z true.
+Definition cl0 := mkC (OUnload 0%Z) true 0%Z true.
 Definition sched_unloaded : list (nat * choice) :=
   repeat (0, lk) 8 ++ repeat (1, cl0) 7 ++ repeat (0, lk) 3.
 
 Example C16_nonvacuous_unloaded_while_loading :
-  exists s, reachable s [Done (RErr EUnloaded); Done RNil]
+  exists s, reachable bp_src s [Done (RErr EUnloaded); Done RNil]
             /\ rd s = None /\ closed s = [0] /\ loads s = 1 /\ unloads s = 1.
 Proof.
-  destruct (exec sched_unloaded (init_shared 1%Z) (repeat Idle 2)) as [[s ts]|] eqn:E;
+  destruct (exec false sched_unloaded (init_shared 1%Z) (repeat Idle 2)) as [[s ts]|] eqn:E;
     vm_compute in E; [|discriminate].
   injection E as <- <-.
-  eexists. split; [exists 2, 1%Z; apply (exec_steps sched_unloaded); vm_compute; reflexivity|].
+  eexists. split; [rewrite bp_src_false; exists 2, 1%Z; apply (exec_steps false sched_unloaded); vm_compute; reflexivity|].
   repeat split.
 Qed.
 
 (* A thread at the use point while an unloader waits for the write lock. *)
 Example C16_nonvacuous_use_point :
-  exists s, reachable s [L_UseCall 0; U_Lock 0%Z]
+  exists s, reachable bp_src s [L_UseCall 0; U_Lock 0%Z]
             /\ readers s = 1 /\ writer s = false /\ rd s = Some 0
-            /\ tstep cl0 s (U_Lock 0%Z) = None.
+            /\ tstep bp_src cl0 s (U_Lock 0%Z) = None.
 Proof.
   eexists. split.
-  - exists 2, 1%Z.
-    apply (exec_steps (repeat (0, lk) 8 ++ [(1, cl0)] ++ repeat (0, lk) 4)). vm_compute. reflexivity.
+  - rewrite bp_src_false. exists 2, 1%Z.
+    apply (exec_steps false (repeat (0, lk) 8 ++ [(1, cl0)] ++ repeat (0, lk) 4)). vm_compute. reflexivity.
   - vm_compute. repeat split.
 Qed.
 
 (* A sequential run with a reload and idle checks on both sides of usedAt. *)
 Example C16_nonvacuous_sequential :
-  exists obs, seq_model true (init_shared 5%Z)
+  exists obs, seq_model bp_src true (init_shared 5%Z)
                 [(OLookup, 10%Z); (OUnload 9%Z, 0%Z); (OSweep 10%Z, 0%Z); (OLookup, 20%Z); (OUnload 0%Z, 0%Z)] = Some obs
    /\ map (fun x => o_res (snd x)) obs = [KOk; KNotIdle; KNil; KOk; KNil]
    /\ map (fun x => o_loads (snd x)) obs = [1; 1; 1; 2; 2]%N.
